@@ -311,8 +311,19 @@ def build_evidence(prop, tier, seed, recs, results, undecided, violations, known
         'termination only where a decreases clause is given',
         'allocation below max_size never fails (--no-malloc-may-fail; operator new throwing std::bad_alloc on exhaustion is outside the model)',
     ]
+    level = 'proof'
+    try:
+        import importlib.util
+        sp = importlib.util.spec_from_file_location('claims', os.path.join(core.VERIF, 'claims.py'))
+        cl = importlib.util.module_from_spec(sp)
+        sp.loader.exec_module(cl)
+        level = cl.CLAIMS.get(prop, {}).get('category', 'proof')
+    except Exception:
+        pass
+    if proof_obl == 0:
+        level = 'other'   # nothing but bounded stand-ins: never reported as proof
     ev = {
-        'property_id': prop, 'tier': tier, 'seed': seed, 'level': 'proof',
+        'property_id': prop, 'tier': tier, 'seed': seed, 'level': level,
         'coverage': {
             'obligations': proof_obl, 'discharged': proof_dis,
             'bounded_obligations': bnd_obl, 'bounded_discharged': bnd_dis,
@@ -375,7 +386,7 @@ def cmd_manifest(args):
                 'thorough_cmd': './cv check %s --tier thorough' % p,
                 'evidence_file': '/verif/evidence/%s.json' % p,
                 'replay_cmd_template': './cv replay {path}', 'engine': 'cv',
-                'level_claimed': {'category': 'proof', 'text': c['text'], 'design_ref': c.get('design_ref', '')},
+                'level_claimed': {'category': c.get('category', 'proof'), 'text': c['text'], 'design_ref': c.get('design_ref', '')},
                 'level_note': c['note'],
                 'technique': c.get('technique', 'CBMC code contracts (requires/ensures/assigns, loop invariants) enforced with goto-instrument --dfcc on verbatim function bodies; bounded unwinding stand-ins labelled'),
             })
